@@ -155,34 +155,34 @@ CHECKS = {
 # extensions made in answer to the later waves of seeded changes (DESIGN.md 8.3, waves 4-6)
 ADDENDA = {
     'C01': 'Also: for every extraction k of a decomposition an error is injected at / right after extraction k (every abort point) and the '
-           'next sift is judged and compared with the undisturbed run; amplitude copies x 1e-13 / x 1e9 with rescaled or zero threshold.',
-    'C02': 'Also: parabolic-extrema configurations; fixed counts of 130 / 400 iterations on an offset tone.',
+           'next sift is judged and compared with the undisturbed run; amplitude copies x 1e-13 / x 1e9 with rescaled or zero threshold. Alternative call forms (positional threshold / cap, **config, get_func, column input), bounded iteration budgets, byte-swapped and 32-bit integer input.',
+    'C02': 'Also: parabolic-extrema configurations; fixed counts of 130 / 400 iterations on an offset tone. Positional sift form; mask amplitude mode omitted.',
     'C03': 'Also: masked sift of a 1536 / 3000-sample record right after a same-length record sharing its head / tail / both ends; '
-           'signals on a 1e7 offset.',
-    'C04': 'Also: fixed counts of 64..400 iterations on an offset tone of both signs; results handed out by earlier calls must stay unchanged.',
-    'C05': 'Also: inputs handed over in caller-owned buffers refilled in place (two consecutive calls on one object), earlier results unchanged.',
-    'C06': 'A fifth delivery route drives a configuration with a past (callable built once, groups written back as equal copies, then edited).',
+           'signals on a 1e7 offset. The cap through three configuration routes; a non-monotone user mask list whose returned frequencies must be the given ones.',
+    'C04': 'Also: fixed counts of 64..400 iterations on an offset tone of both signs; results handed out by earlier calls must stay unchanged. Rilling thresholds above 1 and as tuple / list / array; the all-defaults call against the documented defaults.',
+    'C05': 'Also: inputs handed over in caller-owned buffers refilled in place (two consecutive calls on one object), earlier results unchanged. Strided views of the input.',
+    'C06': 'A fifth delivery route drives a configuration with a past (callable built once, groups written back as equal copies, then edited). Option sets that give an option without its companions.',
     'C07': 'Also: every sequence of in-place edits (8-edit alphabet, depth 2/3) of one caller-owned set of option dictionaries with a masked '
-           'sift after each, serial and on 2 workers; schedules with several jobs per chunk on more than one worker ((9,2) ... (17,4)).',
+           'sift after each, serial and on 2 workers; schedules with several jobs per chunk on more than one worker ((9,2) ... (17,4)). A non-monotone user mask list; get_mask_freqs called directly.',
     'C08': 'Also: the complete-ensemble result and noise matrix against the one-process run for every schedule; unordered maps are given '
-           'an explicit out-of-order feasible completion order; one ensemble of 1500 (thorough: 3000) members.',
-    'C09': 'Also: IMFs of sifted noise (256-5000 samples); inputs in caller-owned buffers refilled in place.',
-    'C10': 'Also: Fortran-ordered inputs; results of earlier calls (sparse data buffers included) must stay unchanged.',
-    'C11': 'Also: 300 x 300, 120 x 600 and 20 x 15 bin grids; results of earlier calls must stay unchanged.',
+           'an explicit out-of-order feasible completion order; one ensemble of 1500 (thorough: 3000) members. Non-default extrema options; data scaled to 1e-12.',
+    'C09': 'Also: IMFs of sifted noise (256-5000 samples); inputs in caller-owned buffers refilled in place. The public phase routine and amplitude_normalise called directly (wrapped = wrap(unwrapped); one pass = x / combined envelope of the selected interpolant).',
+    'C10': 'Also: Fortran-ordered inputs; results of earlier calls (sparse data buffers included) must stay unchanged. Calls with `mode` omitted; a bin set that starts below zero.',
+    'C11': 'Also: 300 x 300, 120 x 600 and 20 x 15 bin grids; results of earlier calls must stay unchanged. Defaults omitted, options by position, an exhaustive small family with NaN / inf frequencies over bins that contain 0.',
     'C12': 'Also: recordings beyond 2^17 samples with wraps exactly on powers of two; phases handed over in a caller-owned buffer '
-           'refilled in place (two consecutive calls on one object).',
-    'C13': 'Also: 5000-sample cycles with one plateau / reversal exactly on a 2^k sample index; tolerances less than 1e-6 apart used one after the other.',
+           'refilled in place (two consecutive calls on one object). The deprecated alias, the positional form, an all-True mask vector, a wrap-free column placed first.',
+    'C13': 'Also: 5000-sample cycles with one plateau / reversal exactly on a 2^k sample index; tolerances less than 1e-6 apart used one after the other. The alias with masks; the phase as second column of a two-column array.',
     'C14': 'Also: alignment of cycles with one internal phase step of 3.3-4.2 rad; label / value arrays in caller-owned buffers refilled in place; '
-           'results of earlier calls unchanged.',
+           'results of earlier calls unchanged. Values with trailing dimensions in bin_by_phase; pre-built iterators (either mode) in place of the container.',
     'C15': 'Alphabet now 30 operations (conditions on chain-level metrics, stored chain metrics re-added under another name); the '
-           'observation queries are issued after every step of a history.',
-    'C16': 'Also: cycle vectors in a caller-owned buffer refilled in place; +inf / -inf among the projected values.',
-    'C17': 'Also: the 1-feature family on a 0.1-grid with bounds 1.0 / 0.1 (distances one rounding step from the bound) and on a 1.7e9 offset.',
+           'observation queries are issued after every step of a history. The container\'s three iterators and the per-condition columns (ret_separate) observed after every transition; a root built with the constructor\'s mode keyword.',
+    'C16': 'Also: cycle vectors in a caller-owned buffer refilled in place; +inf / -inf among the projected values. [n x 1] cycle vectors; the IterateCycles class over cycles / subset / chains; primed buffers.',
+    'C17': 'Also: the 1-feature family on a 0.1-grid with bounds 1.0 / 0.1 (distances one rounding step from the bound) and on a 1.7e9 offset. Positional and column call forms.',
     'C18': 'Also: the configuration is used (unpacked and through get_func) in every state of every history and must be unchanged by use; '
-           'a second root starts from array-valued mask options; groups written back as equal copies are distinct histories.',
-    'C19': 'Also: every history of 3 read-only queries (12-query alphabet) on one cycle container, each answer against a fresh container.',
+           'a second root starts from array-valued mask options; groups written back as equal copies are distinct histories. update() with key paths; a tuple nested in a tuple among the values.',
+    'C19': 'Also: every history of 3 read-only queries (12-query alphabet) on one cycle container, each answer against a fresh container. Iterator routes with route equivalence; length mismatches with container / iterator forms; [n x 1 x 1] input to the transforms; thorough: query histories of depth 4.',
     'C20': 'Alphabet now 26 operations (console levels ERROR and NOTSET included); 12-member ensembles on 3 controlled workers with '
-           'out-of-order completion in 7 logger states against the never-set-up serial run.',
+           'out-of-order completion in 7 logger states against the never-set-up serial run. 28 operations (second-layer sifts with the verbosity in sift_args); the console handler level is also read directly through logging.',
 }
 
 NOT_YET = 'check not built yet in this round (planned, see DESIGN.md section 3)'
